@@ -83,6 +83,7 @@ def run(ctx):
         ok = bool(loops) and all(norm(l.iter).startswith("list(") for l in loops)
         ctx.ob("C03.R4", IR + ":" + q, "the uses set is copied before del_use mutates it in the loop", ok, construct="iterate-copy")
 
+    _block_refs(ctx)
     # R5
     opt = ctx.fn("ppci/api.py", "optimize")
     cfg = CFG(opt)
@@ -94,6 +95,48 @@ def run(ctx):
         ctx.ob("C03.R5", "ppci/api.py:optimize", "verify_module runs before the first pass", cfg.must_pass(st, is_verify), construct="verify-before", node=r)
         loop = [a for a in _anc(r) if isinstance(a, ast.For)]
         ctx.ob("C03.R5", "ppci/api.py:optimize", "verify_module runs after the last pass on every path to the return", bool(loop) and cfg.must_follow(loop[-1], is_verify), construct="verify-after", node=r)
+
+
+def _block_refs(ctx):
+    """R6: predecessor bookkeeping of jumps.  Block.references holds each jump ONCE (a set), while a jump may
+    name the same block in several slots (cjmp c ? b : b)."""
+    from .. import sym
+    ctx.rule("C03.R6", "Block.references (the predecessor set) mirrors JumpBase._block_map: a jump leaves a block's set only when no other slot still targets that block, and a raising remove never runs once per slot", floor=4)
+    st = ctx.fn(IR, "JumpBase.set_target_block")
+    site = IR + ":JumpBase.set_target_block"
+    rem = [c for c in ast.walk(st) if isinstance(c, ast.Call) and last_name(c) in ("remove", "discard") and norm(c.func.value).endswith(".references")]
+    ctx.need(len(rem) == 1, "set_target_block: removal from the old block's references not found")
+    env = sym.single_assign_env(st)
+    cj = sym.conjuncts(rem[0], st, {})
+    conj = [("" if pol else "not ") + norm(e) for e, pol in cj]
+    pol_of = {id(e): pol for e, pol in cj}
+    raw = [e for e, pol in cj]
+    other_slots = [e for e in raw if any(isinstance(x, ast.Call) and norm(x.func) in ("self._block_map.values", "self._block_map.items") for x in ast.walk(e))]
+    ctx.ob("C03.R6", site, "the jump is removed from the old target's references only under a condition over all slots of _block_map (another slot may still name the old block; comparing only old and new block is not enough)",
+           bool(other_slots), construct="other-slots-consulted", node=rem[0], detail="; ".join(conj))
+    if other_slots:
+        t = ("" if pol_of[id(other_slots[0])] else "not ") + norm(other_slots[0])
+        ok = ("count(" in t and "== 1" in t and not t.startswith("not ")) or t.startswith("not any(") or t.startswith("all(")
+        ctx.ob("C03.R6", site, "that condition means `no other slot holds the old block` (count == 1 before the slot is overwritten, or no other slot is the old block)", ok, construct="other-slots-none", node=rem[0], detail=t)
+    stores = [n for n in walk_no_nested(st) if isinstance(n, ast.Assign) and norm(n.targets[0]).startswith("self._block_map[")]
+    adds = [c for c in ast.walk(st) if isinstance(c, ast.Call) and last_name(c) == "add" and norm(c.func.value).endswith(".references")]
+    ok = len(stores) == 1 and len(adds) == 1 and not sym.conjuncts(adds[0], st, {}) and not sym.conjuncts(stores[0], st, {}) and rem[0].lineno < stores[0].lineno
+    ctx.ob("C03.R6", site, "the slot is overwritten after the old reference was considered, and the jump is added to the new target's references unconditionally", ok, construct="store-then-add")
+    dl = ctx.fn(IR, "JumpBase.delete")
+    site = IR + ":JumpBase.delete"
+    rem = [c for c in ast.walk(dl) if isinstance(c, ast.Call) and last_name(c) in ("remove", "discard") and norm(c.func.value).endswith(".references")]
+    ctx.need(rem, "JumpBase.delete: removal from references not found")
+    for c in rem:
+        in_loop = any(isinstance(a, (ast.For, ast.While)) for a in _anc(c) if a is not dl)
+        guarded = any(pol and isinstance(e, ast.Compare) and isinstance(e.ops[0], (ast.In, ast.NotIn)) and ("references" in norm(e) or "_block_map.values()" in norm(e)) for e, pol in sym.conjuncts(c, dl, {}))
+        ctx.ob("C03.R6", site, "delete(): per-slot removal from references tolerates two slots naming one block (discard, or a membership guard): set.remove raises KeyError the second time",
+               (not in_loop) or last_name(c) == "discard" or guarded, construct="delete-per-slot", node=c, detail=norm(c))
+    loops = [l for l in walk_no_nested(dl) if isinstance(l, (ast.While, ast.For))]
+    ctx.ob("C03.R6", site, "delete() empties every slot", bool(loops) and "_block_map" in norm(loops[0].test if isinstance(loops[0], ast.While) else loops[0].iter), construct="delete-all-slots")
+    ct = ctx.fn(IR, "JumpBase.change_target")
+    calls = [c for c in calls_in(ct, "set_target_block")]
+    ok = bool(calls) and any(isinstance(a, ast.For) and "_block_map" in norm(a.iter) for a in _anc(calls[0])) and not any(isinstance(x, (ast.Break, ast.Return)) for x in ast.walk(ct))
+    ctx.ob("C03.R6", IR + ":JumpBase.change_target", "change_target retargets every slot that holds the old block (no early exit after the first)", ok, construct="change-all-slots")
 
 
 def _writes(project, tree):
